@@ -198,6 +198,9 @@ def m_type(r, depth, avail, allow_any=True) -> MT:
         parts.append(a)
     if len(parts) < 2:
         return parts[0] if parts else m_scalar(r)
+    # typing caches parametrised aliases by *equal* arguments and Union equality ignores order: the first spelling
+    # created in the process wins (Dict[str, Union[str, float]] is Dict[str, Union[float, str]]); one canonical order
+    parts.sort(key=lambda p: p.py)
     return MT("Union[" + ", ".join(p.py for p in parts) + "]", "TUnion [" + "; ".join(p.coq for p in parts) + "]", None, False,
               sum((p.classes for p in parts), ()))
 
